@@ -144,7 +144,7 @@ PROPS["C05"] = {
     "level_note": "UUID uniqueness assumed; bounded families; reductions R1/R2.",
 }
 PROPS["C18"] = {
-    "groups": [{"run": "^vpH_C18_T_|^vpH_C08_T_|^vpH_C09_T_stop_(leader|slow_create|twice)$"}],
+    "groups": [{"run": "^vpH_C18_T_|^vpH_C08_T_|^vpH_C09_T_stop_(leader|slow_create|twice)$|^vpH_C07_T_stale_events$"}],
     "bounds": {"quick": "Status() is evaluated at every quiescent point of the C08 family (every cause of term end, two terms, recording Metrics) and after the return of every stop of the C09 stop-of-a-leader / slow-Create / repeated-stop scenarios: IsLeader <=> State == LEADER, State in the documented set, a leader's LeaderID / Token / Revision equal its id, its term token and the revision of its latest successful write in the store, STOPPED with IsLeader false after a stop, last SetIsLeader value == IsLeader(), IncTransitions calls form a chain starting at CANDIDATE; follower harness: LeaderID converges to the id in the live record across a change of owner, with watch events delivered or lost"},
     "outside": "snapshots taken in the middle of a transition (Status() holds the read lock; torn reads of several atomics by lock-free readers are not explored, reduction R1)",
     "assumptions": [],
